@@ -177,7 +177,9 @@ VP_HARNESS(h_adopt)
   size_t len = (sizeof *st + PAGESZ - 1) & ~(size_t) (PAGESZ - 1); unsigned long flags = 0; unsigned abi = HWLOC_TOPOLOGY_ABI;
   h.header_version = HWLOC_SHMEM_HEADER_VERSION; h.header_length = 24; h.mmap_address = (uintptr_t) st; h.mmap_length = len; vp_mmap_mode = 0;
 #else
-  h.header_version = vp_in_uint(); h.header_length = vp_in_uint(); h.mmap_address = vp_in64(); h.mmap_length = vp_in64();
+  /* the address field either matches the mapping or is arbitrary: chosen by a boolean so that a counterexample can be
+   * replayed natively (a raw symbolic value that must equal a pointer has no native counterpart) */
+  h.header_version = vp_in_uint(); h.header_length = vp_in_uint(); { int am = vp_in_bool(); uint64_t other = vp_in64(); h.mmap_address = am ? (uint64_t) (uintptr_t) st : other; } h.mmap_length = vp_in64();
   unsigned long flags = vp_in64(); VP_ASSUME(flags <= 1);
   size_t len = (size_t) vp_in64();
   vp_mmap_mode = (int) vp_in_range(0, 2);
